@@ -214,9 +214,53 @@ def run(ctx):
     ctx.ob('C15-FKON.every-sqlite-connection-enforces-foreign-keys', pcn, prag[0].ast, ok,
            '' if ok else 'SQLitePool._connect can return a new connection without `PRAGMA foreign_keys = true` (the pragma is guarded by something other than the sqlite library '
            'version, e.g. per-pool state that other threads do not see): bulk deletes through such a connection leave dangling references', node=prag[0].ast)
+    # ---------------------------------------------------------------- LINKS
+    # when an object is deleted its links are taken from the session's current values (obj._vals_): the test "is this attribute loaded?" and the
+    # read it guards must look at the same mapping.  Testing _dbvals_ (values as last seen in the database) and reading _vals_ skips every link
+    # that was only made in this session: the deleted object stays in its parent's collection.
+    dl = repo.fn(CORE, 'Entity._delete_'); g = cg.cfg(dl)
+    MAPS = ('_vals_', '_dbvals_')
+    getters = {}
+    for s_ in walk_no_nested(dl.node):
+        if isinstance(s_, ast.Assign) and len(s_.targets) == 1 and isinstance(s_.targets[0], ast.Name) and isinstance(s_.value, ast.Attribute) and s_.value.attr == 'get' \
+                and (dotted(s_.value.value) or '').endswith(MAPS):
+            getters[s_.targets[0].id] = dotted(s_.value.value)
+    def reads(node):
+        out = []
+        for x in ast.walk(node):
+            if isinstance(x, ast.Call) and isinstance(x.func, ast.Name) and x.func.id in getters and x.args and isinstance(x.args[0], ast.Name): out.append((getters[x.func.id], x.args[0].id))
+            elif isinstance(x, ast.Call) and isinstance(x.func, ast.Attribute) and x.func.attr == 'get' and (dotted(x.func.value) or '').endswith(MAPS) and x.args and isinstance(x.args[0], ast.Name):
+                out.append((dotted(x.func.value), x.args[0].id))
+            elif isinstance(x, ast.Subscript) and isinstance(x.ctx, ast.Load) and (dotted(x.value) or '').endswith(MAPS) and isinstance(x.slice, ast.Name): out.append((dotted(x.value), x.slice.id))
+        return out
+    nlinks = 0
+    for t in g.nodes:
+        if t.kind != 'test': continue
+        for cmp_ in [x for x in ast.walk(t.ast) if isinstance(x, ast.Compare) and len(x.ops) == 1 and isinstance(x.ops[0], (ast.In, ast.NotIn))]:
+            m = dotted(cmp_.comparators[0]) or ''
+            if not (m.endswith(MAPS) and isinstance(cmp_.left, ast.Name)): continue
+            key = cmp_.left.id
+            member = 'T' if isinstance(cmp_.ops[0], ast.In) else 'F'
+            starts = [y for y, lab in g.succ[t.id] if lab == member]
+            other = [y for y, lab in g.succ[t.id] if lab in ('T', 'F') and lab != member]
+            region = g.reach(starts, avoid=[t]) - g.reach(other, avoid=[t])          # reached only when the key is present
+            for i in sorted(region):
+                n_ = g.nodes[i]
+                if n_.ast is None or n_.kind not in ('stmt', 'test'): continue
+                root = n_.ast if n_.kind == 'test' else n_.ast
+                if isinstance(root, (ast.FunctionDef, ast.For, ast.While, ast.If, ast.Try, ast.With)): continue
+                for m2, k2 in reads(root):
+                    if k2 != key: continue
+                    nlinks += 1
+                    ok = m2 == m
+                    ctx.ob('C15-LINKS.presence-test-and-read-use-the-same-mapping', dl, n_.ast, ok,
+                           '' if ok else 'the link is read from %s[%s] but whether it exists is decided by `%s`: a link made in this session (present in _vals_, '
+                           'absent from _dbvals_) is skipped and the deleted object stays referenced by its partner' % (m2, k2, norm(cmp_)), node=n_.ast)
+    ctx.floor('C15-LINKS', nlinks, 2, 'guarded reads of the deleted object\'s links')
 
 
 MUTANTS = [
+    dict(id='C15-links1', file='pony/orm/core.py', fn='Entity._delete_', old="                            val = get_val(attr) if attr in obj._vals_ else attr.load(obj)", new="                            val = get_val(attr) if attr in obj._dbvals_ else attr.load(obj)", expect='C15-LINKS'),
     dict(id='C15-fo1', file='pony/orm/dbproviders/sqlite.py', fn='SQLitePool._connect', old="        if sqlite.sqlite_version_info >= (3, 6, 19):", new="        if getattr(pool, 'fk_support', False):", expect='C15-FKON'),
     dict(id='C15-f1', file='pony/orm/dbproviders/sqlite.py', fn='SQLiteProvider.set_transaction_mode', old="                if cache.saved_fk_state is None:  # keep the state saved by an earlier transaction of this session\n                    cache.saved_fk_state = bool(fk)", new="                cache.saved_fk_state = bool(fk)", expect='C15-FKSTATE'),
     dict(id='C15-l1', file='pony/orm/core.py', fn='Entity._delete_', old="for robj in set_wrapper: robj._delete_(undo_funcs)", new="for robj in list(obj._vals_[attr]): robj._delete_(undo_funcs)", expect='C15-LOAD'),
